@@ -24,12 +24,12 @@ func init() {
 	Register(&Prop{
 		ID: "C02",
 		Rule: "pipelines of 1..4 requests whose bodies (Content-Length or chunked; sizes around 0, the 8 KiB prefetch and MaxRequestBodySize) consist of well-formed 'GET /smuggled' requests, " +
-			"handlers reading none / k / all of the body (streaming on and off), Expect: 100-continue accepted or rejected by ContinueHandler or ExpectHandler, random arrival chunking, followed by a sentinel request; " +
+			"handlers reading none / k / all of the body (streaming on and off) and ending normally, with an error status, or through TimeoutError / TimeoutErrorWithResponse, Expect: 100-continue accepted or rejected by ContinueHandler or ExpectHandler, random arrival chunking, followed by a sentinel request; " +
 			"monitor: the dispatched targets are a prefix of the planned ones (a body byte parsed as a request shows up as /smuggled or as garbage); non-trivial = some request carries a body; distinct = distinct input",
 		Parallel: true,
 		Build: func(kind string, a [][]byte) *Case {
 			cfg := parseCfg(a[0])
-			// a[1..]: per request "method|bodysize|framing(cl,ch)|rb|expect(0/1)"
+			// a[1..]: per request "method|bodysize|framing(cl,ch)|rb|expect(0/1)|handler-ending"
 			var stream bytes.Buffer
 			var planned []string
 			var bodies [][]byte
@@ -39,6 +39,9 @@ func init() {
 				size, _ := strconv.Atoi(f[1])
 				body := smugBody(size)
 				uri := fmt.Sprintf("/m%d?rb=%s", i-1, f[3])
+				if len(f) > 5 && f[5] != "" {
+					uri += "&" + f[5] // how the handler ends: te=1 (TimeoutError), ter=0 (TimeoutErrorWithResponse), sc=503, close=1
+				}
 				planned = append(planned, uri)
 				bodies = append(bodies, body)
 				fmt.Fprintf(&stream, "%s %s HTTP/1.1\r\nHost: h\r\n", f[0], uri)
@@ -124,7 +127,11 @@ func init() {
 					if strings.Contains(cfg, "cont=") && r.Chance(70) || r.Chance(5) {
 						exp = "1"
 					}
-					args = append(args, B(fmt.Sprintf("%s|%d|%s|%s|%s", method, sizes[r.Intn(len(sizes))], fr, rbs[r.Intn(len(rbs))], exp)))
+					end := ""
+					if r.Chance(20) {
+						end = r.Pick([]string{"te=1", "ter=0", "te=1", "sc=503"})
+					}
+					args = append(args, B(fmt.Sprintf("%s|%d|%s|%s|%s|%s", method, sizes[r.Intn(len(sizes))], fr, rbs[r.Intn(len(rbs))], exp, end)))
 				}
 				cuts := ""
 				if r.Chance(60) {
